@@ -88,6 +88,10 @@ class ExpungeResponse(UntaggedResponse):
         self.seq = seq
 
     @property
+    def renumbers(self) -> bool:
+        return True
+
+    @property
     def text(self) -> bytes:
         return super().text + b'%i EXPUNGE' % self.seq
 
